@@ -205,6 +205,9 @@ def gen_update_args(rng, opts=None):
         if rng.random() < 0.25:
             ks = rng.sample(FIELD_KEYS + ["n", "xy"], rng.choice([1, 1, 2]))
             a["unset_fields"] = ks[0] if len(ks) == 1 and rng.random() < 0.5 else ks
+        if ("tags" in a and "static" in a["tags"]) or ("fields" in a and "static" in a["fields"]):
+            if rng.random() < 0.3:
+                a["mapping_form"] = rng.choice(["ordered", "proxy", "chainmap"])
         for k in ("unset_tags", "unset_fields"):
             if isinstance(a.get(k), list) and rng.random() < 0.5:
                 # any iterable of strings is documented: tuples, sets, one-shot generators
